@@ -35,6 +35,33 @@ def inputs(seed, quick):
     for ver, suite in [(R.TLS13, 0x1301), (R.TLS12, 0x003C), (R.TLS10, 0x0005)]:
         cap, keylog, conns, flows = build_tls_capture(dict(conns=[dict(ver=ver, suite=suite, seed=seed, shape={}, app=[["c", 40], ["s", 900], ["c", 3]])]))
         out.append((f"tls {R.VNAME[ver]} {suite:04x}", pcapng_bytes(cap.pkts), "\n".join(keylog) + "\n"))
+    # inputs that END WITH UNFINISHED STATE (Main.tla capture 2): a run on one of them must leave nothing behind for the next run
+    for ver, suite, how in [(R.TLS12, 0xC02F, "cut"), (R.TLS13, 0x1301, "lost"), (R.TLS12, 0x002F, "nokeys"), (R.TLS10, 0x000A, "cut")]:
+        cap, keylog, conns, flows = build_tls_capture(dict(conns=[dict(ver=ver, suite=suite, seed=seed + 3, shape={}, mss=90,
+                                                                         app=[["c", 40], ["s", 900], ["c", 300], ["s", 20]])]))
+        pk = list(cap.pkts)
+        if how == "cut":
+            pk = pk[:len(pk) - 3]
+        elif how == "lost":
+            del pk[len(pk) // 2]
+        out.append((f"dirty tls {R.VNAME[ver]} {suite:04x} {how}", pcapng_bytes(pk), "" if how == "nokeys" else "\n".join(keylog) + "\n"))
+    from harness.quicrun import build_conn as qbuild
+    from wire.capture import Capture, udp_capture
+    from wire.l2l4 import mk_flow
+    for k, (first, dup, cutn) in enumerate([("same", True, 0), ("other", False, 0), ("other", True, 0), ("same", False, 2)]):
+        b = c04.std_quic_beh(["1302", "1303", "1301", "1304"][k])
+        b["first"] = first
+        c, payload = qbuild(b, seed + 11 + k, dict(c_cid_len=8, s_cid_len=8, pnlen={"c": 2, "s": 2}))
+        dg = []
+        for g in c.dgrams:
+            dg.append(g)
+            if dup and len(dg) < 8:
+                dg.append(g)                                  # duplicated datagrams: retransmitted CRYPTO frames stay buffered
+        if cutn:
+            dg = dg[:len(dg) - cutn]
+        fl = mk_flow(20 + k)
+        cp = udp_capture([(fl, g.d, g.payload, g) for g in dg], cap=Capture(ts0=1_700_000_000_000_000, step=1009))
+        out.append((f"{'dirty ' if dup or cutn else ''}quic first={first} dup={dup} cut={cutn}", pcapng_bytes(cp.pkts), "\n".join(c.keylog) + "\n"))
     return out
 
 
@@ -71,9 +98,9 @@ def _mixed(job):
 def run(chk):
     quick = chk.tier == "quick"
     rng = random.Random(chk.seed)
-    r = tlc.run("Main", dict(NConn="2", PktsPerConn="2", Runs="3", Repaired="TRUE", Seeds="{0,1,2}"), invariants=["OutputIsFunctionOfInputs"], timeout=300)
+    r = tlc.run("Main", dict(NConn="2", PktsPerConn="2", Runs="3", Repaired="TRUE", Seeds="{0,1,2}", Caps="{1,2}"), invariants=["OutputIsFunctionOfInputs"], timeout=300)
     chk.tlc("Main: repeated runs, fresh state", r)
-    r0 = tlc.run("Main", dict(NConn="2", PktsPerConn="2", Runs="3", Repaired="FALSE", Seeds="{0,1}"), invariants=["OutputIsFunctionOfInputs"], timeout=300)
+    r0 = tlc.run("Main", dict(NConn="2", PktsPerConn="2", Runs="3", Repaired="FALSE", Seeds="{0,1}", Caps="{1,2}"), invariants=["OutputIsFunctionOfInputs"], timeout=300)
     chk.tlc("Main: original code keeps module state (documents the repaired defect)", r0, expect_ok=False)
     from checks import demux_cfg
     for name in ("two quic, empty cids, same client host", "three quic: empty, one-byte and two-byte cids"):
